@@ -68,10 +68,11 @@ class Summaries:
         return f(ctx)
 
     def register_all(self):
-        from . import sum_core, sum_deku, sum_misc
+        from . import sum_core, sum_deku, sum_misc, sum_tracker
         sum_core.register(self)
         sum_deku.register(self)
         sum_misc.register(self)
+        sum_tracker.register(self)
 
 
 class CallCtx:
